@@ -53,6 +53,14 @@ def items(tier):
         for lst in ([1], [2, 1], [4, 2], [3, 1, 2]):
             out.append((sp, dict(o, post_insert=lst)))
         out.append((sp, dict(o, backward=True, rev=True)))
+    # automatic work that goes on during project-wide absence steps, with a holiday entered afterwards at every single step of the result
+    for sp in [F.oven_spec(3.0), F.oven_spec(2.0)] + F.auto_component_specs()[:: (4 if tier == "quick" else 1)]:
+        for ab in ([1, 2], [0, 1], [2], [0, 2, 3]):
+            for ins in range(0, 8):
+                out.append((sp, {"rule": "TSLACK", "auto_abs": True, "absence": ab, "max_time": F.seq_bound(sp) + 14, "post_insert": [ins]}))
+    # products grown step by step (register a component, hang its parts under it, register the parts when their turn comes)
+    for sp in F.three_level_product_specs() + F.nested_running_specs() + F.nested_order_specs():
+        out.append((dict(sp, product_wire="register-and-link"), {"rule": "TSLACK", "max_time": F.seq_bound(sp) + 8}))
     # the same invariants on a run that follows an earlier run on the same project object
     for sp, o in list(out)[:: (7 if tier == "quick" else 2)]:
         out.append((sp, dict(o, presim=1)))
